@@ -757,6 +757,7 @@ func streamBuilder(c *Ctx) {
 		c.squareCase(sc)
 	}
 	c.manyBlobCases()
+	c.fullSquareCases()
 	c.hugeTxCases()
 	c.hugeBlobCases()
 	c.manySequencesCase()
@@ -944,6 +945,62 @@ func (c *Ctx) manyBlobCases() {
 		for _, f := range fillers {
 			c.squareCase(mk(f))
 			c.dist("many-blob-tx")
+		}
+	}
+}
+
+// fullSquareCases: squares filled to the very last share by single-share blobs that exactly fill their share
+// (478 bytes for share version 0, 458 for version 1): the raw encodings of the kept transactions then add up
+// to MORE bytes than the square holds (namespace, signer and protobuf framing of every blob are not stored
+// in the blob's share), and the estimate equals max^2 exactly
+func (c *Ctx) fullSquareCases() {
+	pool := c.userNamespaces(1)
+	for _, max := range []int{2, 4, 8, 16} {
+		for _, v1 := range []bool{false, true} {
+			if max == 16 && !c.thorough && !v1 {
+				continue
+			}
+			size := 478
+			if v1 {
+				size = 458
+			}
+			mk := func(nb int, split bool) sqCase {
+				sc := sqCase{max: max, thr: 64}
+				specs := make([]blobSpec, nb)
+				for j := range specs {
+					specs[j] = c.randBlob(pool[0], size, v1)
+				}
+				if split && nb > 2 {
+					// the same blobs paid for by two transactions
+					for _, part := range [][]blobSpec{specs[:nb/2], specs[nb/2:]} {
+						raw := c.makeBlobTx(part, 5)
+						btx, _, _ := tx.UnmarshalBlobTx(raw)
+						sc.txs = append(sc.txs, genTx{raw: raw, isBlob: true, inner: btx.Tx, blobs: part})
+					}
+				} else {
+					raw := c.makeBlobTx(specs, 5)
+					btx, _, _ := tx.UnmarshalBlobTx(raw)
+					sc.txs = append(sc.txs, genTx{raw: raw, isBlob: true, inner: btx.Tx, blobs: specs})
+				}
+				sc.desc = fmt.Sprintf("max=%d thr=64 full square: %d exact-fit version-%d blobs of %d bytes (split=%v)", max, nb, map[bool]int{false: 0, true: 1}[v1], size, split)
+				return sc
+			}
+			for _, split := range []bool{false, true} {
+				// the largest number of such blobs the square keeps
+				for nb := max*max - 1; nb >= 1 && nb >= max*max-6; nb-- {
+					sc := mk(nb, split)
+					b := safeBuild(rawList(sc.txs), sc.max, sc.thr)
+					if b.err == nil && len(b.kept) == len(sc.txs) {
+						// 16 x 16 with ~250 blobs: Go-side oracles only in the quick tier (every range query of the
+						// case would otherwise rebuild the square in the model)
+						c.goOnly = !c.thorough && max >= 16
+						c.squareCase(sc)
+						c.goOnly = false
+						c.dist("full-square")
+						break
+					}
+				}
+			}
 		}
 	}
 }
